@@ -66,3 +66,22 @@ def driverLine (inp obs : List String) : Bool × Bool × String × String :=
   | _ => (false, false, "bad-line", "")
 
 end Hd.Server
+
+namespace Hd.Server
+
+/-- `srvk <h1|auto> <kind> ; <fault> ; … | <srv> <probe>` -/
+def kernelLine (inp obs : List String) : Bool × Bool × String × String :=
+  match splitSemi inp, obs with
+  | [proto, _kind] :: fs, [srv, probe] =>
+    let faults := fs.filterMap List.head?
+    let (ms, mp) := kernelRun (proto == "auto") faults
+    let shown := s!"{showSrv ms} {boolTok mp}"
+    -- no shutdown signal, listener kept, make-service never fails: nothing may end the server
+    let cls : Option String :=
+      if srv != "P" then some "C09/server-died"
+      else if probe != "1" then some "C09/fault-leaked-to-other-connection"
+      else none
+    (srv == showSrv ms && probe == boolTok mp, cls.isNone, cls.getD "-", shown)
+  | _, _ => (false, false, "bad-line", "")
+
+end Hd.Server
